@@ -198,7 +198,10 @@ func c10Run(j c10Job) *jobReport {
 	for _, d := range []struct {
 		delta int64
 		ok    bool
-	}{{86400, true}, {-86400, true}, {86401, false}, {-86401, false}, {1 << 40, false}, {-int64(ts), false}} {
+	}{{86400, true}, {-86400, true}, {86401, false}, {-86401, false}, {1 << 40, false}, {-int64(ts), false},
+		// distances that are small again after a multiplication by 10^9 or 10^6 wraps around 2^64 (arithmetic in nanoseconds / microseconds)
+		{1 << 55, false}, {-(1 << 55), false}, {3 << 55, false}, {1<<55 + 3600, false}, {1<<62 + 1<<61, false}, {-(1 << 62), false},
+		{1 << 58, false}, {1 << 45, false}, {-(1 << 45), false}, {1<<45 + 60, false}} {
 		b := append([]byte(nil), body...)
 		putU64(b[len(b)-8:], uint64(int64(ts)+d.delta))
 		if d.ok {
